@@ -33,6 +33,16 @@ var special = []float64{
 
 var srids = []int{0, 4326, 1, 255, 256, 257, 12336, 12592, 30812, 1<<31 - 1}
 
+// prefixSRIDs: the SRIDs written into the 4-byte prefix framing for one run: the run's own SRID plus, on the
+// default configuration, prefixes that spell a plausible WKB header (0 = absent, 1, 256, 257, 8192 = 00 20 00 00,
+// 513) and the extremes
+func prefixSRIDs(srid int) []int {
+	if srid == 0 {
+		return []int{0, 4326, 8192, 1, 256, 257, 513, 1<<31 - 1}
+	}
+	return []int{srid}
+}
+
 var orders = []binary.ByteOrder{binary.LittleEndian, binary.BigEndian}
 
 // fragReader: every Read returns everything asked for or (when the driver says so) a single byte.
@@ -331,24 +341,44 @@ func checkAll(c *mc.Ctx, g orb.Geometry, srid int, order binary.ByteOrder, typed
 	}
 	// 4-byte SRID prefix (supported path): ValuePrefixSRID -> ScannerPrefixSRID
 	if order == binary.LittleEndian {
-		psrid := srid
-		if psrid == 0 {
-			psrid = 4326
-		}
-		pv, err := ewkb.ValuePrefixSRID(g, psrid).Value()
-		if err != nil || pv == nil {
-			c.Failf("encoders-differ", "ValuePrefixSRID = %v,%v | %s", pv, err, desc)
-		} else {
+		for _, psrid := range prefixSRIDs(srid) {
+			pv, err := ewkb.ValuePrefixSRID(g, psrid).Value()
+			if err != nil || pv == nil {
+				c.Failf("encoders-differ", "ValuePrefixSRID = %v,%v | %s", pv, err, desc)
+				continue
+			}
 			pb := pv.([]byte)
 			plain, _ := wkb.Marshal(g)
 			if len(pb) < 4 || int(binary.LittleEndian.Uint32(pb)) != psrid || !bytes.Equal(pb[4:], plain) {
 				c.Failf("encoders-differ", "ValuePrefixSRID bytes % x are not prefix+WKB | %s", pb, desc)
 			}
 			s := ewkb.ScannerPrefixSRID(nil)
-			err := s.Scan(append([]byte(nil), pb...))
+			err = s.Scan(append([]byte(nil), pb...))
 			calls++
 			if err != nil || refgeom.Struct(s.Geometry) != refgeom.Struct(want) || s.SRID != psrid || !s.Valid {
-				c.Failf("prefix-srid", "ScannerPrefixSRID(ValuePrefixSRID(g,%d)) = %v srid=%d valid=%v err=%v | %s", psrid, s.Geometry, s.SRID, s.Valid, err, desc)
+				c.Failf("prefix-srid", "ScannerPrefixSRID(ValuePrefixSRID(g,%d)) = %T %v srid=%d valid=%v err=%v, want %v | %s", psrid, s.Geometry, s.Geometry, s.SRID, s.Valid, err, want, desc)
+			}
+			// typed destination through the prefix framing
+			for _, dn := range []string{"Point", "LineString", "Polygon", "Collection", "Bound"} {
+				exp, ok := coerce(dn, want)
+				ptr, get := newDst(dn)
+				ts := ewkb.ScannerPrefixSRID(ptr)
+				terr := ts.Scan(append([]byte(nil), pb...))
+				calls++
+				switch {
+				case !ok:
+					if terr != ewkb.ErrIncorrectGeometry {
+						c.Failf("prefix-srid-typed", "ScannerPrefixSRID(*%s) with prefix SRID %d: want ErrIncorrectGeometry, got %v, %v | %s", dn, psrid, ts.Geometry, terr, desc)
+					}
+				case terr != nil || ts.SRID != psrid:
+					c.Failf("prefix-srid-typed", "ScannerPrefixSRID(*%s) with prefix SRID %d: err=%v srid=%d | %s", dn, psrid, terr, ts.SRID, desc)
+				case dn == "Bound":
+					if !hasNaN(want) && !sameBound(get(), exp) {
+						c.Failf("prefix-srid-typed", "ScannerPrefixSRID(*Bound) with prefix SRID %d = %v want %v | %s", psrid, get(), exp, desc)
+					}
+				case refgeom.Struct(get()) != refgeom.Struct(exp):
+					c.Failf("prefix-srid-typed", "ScannerPrefixSRID(*%s) with prefix SRID %d = %v want %v | %s", dn, psrid, get(), exp, desc)
+				}
 			}
 			// deprecated MySQL retry of wkb.Scanner
 			w := wkb.Scanner(nil)
